@@ -422,6 +422,10 @@ def check(ix, rep):
     online_gap(ix, rep, on)
     offline_gap(ix, rep, off)
     pure.time_taint_offline(ix, rep, off)
+    # period, unit and tolerance set on the specification reach both interpreters
+    from sa.rules import units
+    nf = units.check_forwarding_calls(ix, rep, lambda name: 'sampling' in name)
+    rep.floor('forwarding calls of the sampling settings', nf, 2)
     # reset restarts the counter (shared with C10)
     rs = [f for f in (ix.resolve_method(on.cls, 'reset'),) if f]
     src = ast.unparse(rs[0].node).replace(' ', '') if rs else ''
